@@ -25,18 +25,35 @@ def _const(tree, name):
     raise AnchorError("constant %s not found" % name)
 
 
+def _str_list(node):
+    """a literal list/tuple of strings, possibly built with starred literal groups or `+` of such literals"""
+    if isinstance(node, (ast.List, ast.Tuple)):
+        out = []
+        for e in node.elts:
+            if isinstance(e, ast.Starred):
+                out += _str_list(e.value)
+            elif isinstance(e, ast.Constant) and isinstance(e.value, str):
+                out.append(e.value)
+            else:
+                raise AnchorError("non-literal element in a _wrap_methods table")
+        return out
+    if isinstance(node, ast.BinOp) and isinstance(node.op, ast.Add):
+        return _str_list(node.left) + _str_list(node.right)
+    raise AnchorError("unexpected _wrap_methods argument: " + ast.dump(node)[:120])
+
+
 def _wrap_tables(tree):
-    """{ClassName: [method names]} for every `X._wrap_methods([...])` call at module level."""
+    """{ClassName: [method names]} for every `X._wrap_methods(<literal list of names>)` call at module level
+    (several calls for one class are accumulated)."""
     out = {}
     for node in tree.body:
         if isinstance(node, ast.Expr) and isinstance(node.value, ast.Call):
             f = node.value.func
             if isinstance(f, ast.Attribute) and f.attr == "_wrap_methods" and isinstance(f.value, ast.Name):
-                arg = node.value.args[0]
-                if not isinstance(arg, (ast.List, ast.Tuple)) or not all(
-                        isinstance(e, ast.Constant) and isinstance(e.value, str) for e in arg.elts):
-                    raise AnchorError("unexpected _wrap_methods argument in class " + f.value.id)
-                out[f.value.id] = [e.value for e in arg.elts]
+                if len(node.value.args) != 1 or node.value.keywords:
+                    raise AnchorError("unexpected _wrap_methods call for class " + f.value.id)
+                out.setdefault(f.value.id, [])
+                out[f.value.id] += _str_list(node.value.args[0])
     return out
 
 
@@ -57,16 +74,20 @@ def _assign_value(func, target):
 
 
 def _bigm_factor(pr):
-    """priceable(): INF = max([instance.budget_limit] + [c.cost for c in C]) * <int>"""
-    v = _assign_value(_func(pr, "priceable"), "INF")
-    if not (isinstance(v, ast.BinOp) and isinstance(v.op, ast.Mult) and isinstance(v.right, ast.Constant)
-            and isinstance(v.right.value, int) and isinstance(v.left, ast.Call)
-            and isinstance(v.left.func, ast.Name) and v.left.func.id == "max"):
-        raise AnchorError("big-M constant of priceable() no longer has the shape max(...) * <int>: " + ast.dump(v)[:200])
-    src = ast.unparse(v.left)
-    if "budget_limit" not in src or ".cost" not in src:
-        raise AnchorError("big-M constant of priceable() no longer dominates budget and costs: " + src)
-    return v.right.value
+    """priceable(): INF = max([instance.budget_limit] + [c.cost for c in C]) * <int>  (or <int> * max(...), possibly
+    inside a helper function of the module): the unique product `<int constant> * <expression mentioning
+    budget_limit and max(...)>` of the module."""
+    found = []
+    for v in ast.walk(pr):
+        if isinstance(v, ast.BinOp) and isinstance(v.op, ast.Mult):
+            for k, e in ((v.right, v.left), (v.left, v.right)):
+                if isinstance(k, ast.Constant) and isinstance(k.value, int) and not isinstance(k.value, bool):
+                    src = ast.unparse(e)
+                    if "budget_limit" in src and "max(" in src:
+                        found.append(k.value)
+    if len(set(found)) != 1:
+        raise AnchorError("big-M constant of priceable(): expected one product <int> * max(budget_limit, costs...), found %r" % (found,))
+    return found[0]
 
 
 def _increase_defaults(ex):
